@@ -27,6 +27,7 @@ TOLERANCES = {"pow2": "bit-identical (T-matrix: 1e-11, cube root of the "
               "cabs-absolute": "1e-10 Cext when the index is real"}
 TIMEOUT = 600
 
+H.ST["mie-2wl"] = H.ST["mie"]          # two wavelengths given as a list
 H.ST["auto-ms2"] = (H.ST["ms2"][0], "auto")
 H.ST["tm-spheroid-abs"] = (("spheroid", 1.59 + 0.05j, (0.3, 0.6),
                             (0.0, 0.4, 0.7), H.C0), ("Tmatrix", (), {}))
@@ -36,12 +37,12 @@ H.ST["auto-far"] = (("spheres", [(1.59, 0.5, (0.2, 0.1, 5.0)),
                                  (1.45, 0.3, (20.0, 4.0, 7.0))]), "auto")
 STS = {"quick": ["mie", "layered", "ms2", "tm-spheroid", "tm-cylinder",
                  "mielens", "abmielens", "lens-mie", "mie2", "auto-ms2",
-                 "auto-far", "tm-spheroid-abs"],
+                 "auto-far", "tm-spheroid-abs", "mie-2wl"],
        "thorough": ["mie", "mie-far", "mie-abs", "layered", "mie2", "ms1",
                     "ms2", "tm-sphere", "tm-spheroid", "tm-cylinder",
                     "mielens", "abmielens", "mielens2", "lens-mie",
                     "auto-ms2", "auto-far", "auto", "tm-spheroid-abs",
-                    "tm-cylinder-abs"]}
+                    "tm-cylinder-abs", "mie-2wl"]}
 SCALES = {"quick": [2.0 ** -13, 2.0 ** 7, 1e-3, 1e4, 1e9],
           "thorough": [2.0 ** -13, 2.0 ** -7, 2.0 ** 7, 2.0 ** 13, 2.0 ** 30,
                        1e-6, 1e-4, 1e-3, 1e3, 1e4, 1e9]}
@@ -93,7 +94,12 @@ def _quantities(st, scale, detname, nmed=H.NMED, wl=H.WL, nscale=1.0,
     det = H.DETS[detname](scale)
     pol = _pol_for(st)
     out = {}
-    kw = dict(medium_index=nmed, illum_wavelen=wl * scale,
+    if st == "mie-2wl":
+        wl = np.array([wl, wl * 0.52 / 0.66])
+        wl = [float(w) for w in wl * scale]
+        scale = 1.0
+    kw = dict(medium_index=nmed, illum_wavelen=wl * scale if not
+              isinstance(wl, list) else wl,
               illum_polarization=pol, theory=theory)
     for name, fn in (("holo", lambda: calc_holo(det, scat, **kw)),
                      ("field", lambda: calc_field(det, scat, **kw)),
@@ -102,6 +108,8 @@ def _quantities(st, scale, detname, nmed=H.NMED, wl=H.WL, nscale=1.0,
                          det, scat, nmed, wl * scale, theory=theory)),
                      ("xsec", lambda: calc_cross_sections(
                          scat, nmed, wl * scale, pol, theory=theory))):
+        if st == "mie-2wl" and name in ("scatmat", "xsec"):
+            continue
         if name == "xsec" and st in ("ms1", "ms2", "auto-ms2") and \
                 not ms_xsec:
             continue            # dblquad inside (~17 s): selected cases only
